@@ -72,7 +72,7 @@ def tasks(tier, seed=0):
     for q in ("has_true", "has_false", "is_true", "is_false", "solution[bool]"):
         out.append(task(M, "ob_query", f"vsa._{q}/sound", ["C24", "C10"], replay=R, q=q, w=1, tier=tier))
     for m in vsaops.LIGHT_METHODS:
-        out.append(task(M, "ob_light", f"light.{m}/sound", ["C24"], method=m, tier=tier))
+        out.append(task(M, "ob_light", f"light.{m}/sound", ["C24", "C13"], replay="vf.contracts.vsaops:replay_light", method=m, tier=tier))
     out.append(task(M, "ob_canary", "vsa.canaries/wrong-postconditions-fail", ["C24"], tier=tier))
     # SolverVSA.is_true / is_false / satisfiable go through the cached Backend.is_true / is_false that every backend inherits: with the VSA
     # backend's three-valued answers "not definitely true" must never be cached as "definitely false" (obligations shared with C10)
